@@ -25,20 +25,23 @@ func (c *zzFConn) SetWriteDeadline(t time.Time) error { return nil }
 // recording driver: any file-system operation a command performs is counted
 type zzDriver struct{ calls int }
 
-func (d *zzDriver) Init()                                   {}
-func (d *zzDriver) Stat(string) (os.FileInfo, error)        { d.calls++; return nil, os.ErrNotExist }
-func (d *zzDriver) ChangeDir(string) error                  { d.calls++; return nil }
-func (d *zzDriver) ListDir(string) []os.FileInfo            { d.calls++; return nil }
-func (d *zzDriver) DeleteDir(string) error                  { d.calls++; return nil }
-func (d *zzDriver) DeleteFile(string) error                 { d.calls++; return nil }
-func (d *zzDriver) Rename(string, string) error             { d.calls++; return nil }
-func (d *zzDriver) MakeDir(string) error                    { d.calls++; return nil }
+func (d *zzDriver) Init()                            {}
+func (d *zzDriver) Stat(string) (os.FileInfo, error) { d.calls++; return nil, os.ErrNotExist }
+func (d *zzDriver) ChangeDir(string) error           { d.calls++; return nil }
+func (d *zzDriver) ListDir(string) []os.FileInfo     { d.calls++; return nil }
+func (d *zzDriver) DeleteDir(string) error           { d.calls++; return nil }
+func (d *zzDriver) DeleteFile(string) error          { d.calls++; return nil }
+func (d *zzDriver) Rename(string, string) error      { d.calls++; return nil }
+func (d *zzDriver) MakeDir(string) error             { d.calls++; return nil }
 func (d *zzDriver) GetFile(string, int64) (int64, io.ReadCloser, error) {
 	d.calls++
 	return 0, nil, os.ErrNotExist
 }
-func (d *zzDriver) PutFile(string, io.Reader, bool) (int64, error) { d.calls++; return 0, os.ErrPermission }
-func (d *zzDriver) CurDir() string                                  { d.calls++; return "/" }
+func (d *zzDriver) PutFile(string, io.Reader, bool) (int64, error) {
+	d.calls++
+	return 0, os.ErrPermission
+}
+func (d *zzDriver) CurDir() string { d.calls++; return "/" }
 
 func zzVerbs() []string {
 	var v []string
